@@ -481,6 +481,17 @@ func (m *objectCacheStorageMiddleware) CompleteMultipartUpload(ctx context.Conte
 	return result, nil
 }
 
+func (m *objectCacheStorageMiddleware) TransitionObjectStorageClass(ctx context.Context, bucketName storage.BucketName, key storage.ObjectKey, targetStorageClass string, opts *storage.TransitionObjectStorageClassOptions) error {
+	// Cached Object metadata includes the storage class (and the transition
+	// bumps Last-Modified), so a transition must invalidate it.
+	err := m.Next.TransitionObjectStorageClass(ctx, bucketName, key, targetStorageClass, opts)
+	if err != nil {
+		return err
+	}
+	m.invalidateObjectCaches(ctx, bucketName, key)
+	return nil
+}
+
 func (m *objectCacheStorageMiddleware) invalidateObjectCaches(ctx context.Context, bucketName storage.BucketName, key storage.ObjectKey) {
 	objKey := objectCacheKey(bucketName, key)
 	if err := m.cache.Remove(objKey); err != nil {
